@@ -4,7 +4,7 @@
    identifier atoms that are not reserved words, so printed-form equality IS tree equality.
    [good L f] = f is a formula of logic L, all atoms match [a-zA-Z_][a-zA-Z_0-9]* and are not
    reserved words, n-ary and/or have >= 2 operands. *)
-From PMC Require Import Spec.Lemmas Proofs.PrintP.
+From PMC Require Import Spec.Lemmas Proofs.PrintP Model.FormHeap Proofs.FormHeapP.
 
 Theorem C11_eq_iff_tree : forall L f g, good L f = true -> good L g = true ->
   (eq_obj (L, f) (L, g) = true <-> f = g).
@@ -53,8 +53,75 @@ Theorem C11_print_injective : forall L f g, good L f = true -> good L g = true -
 Proof. exact print_inj. Qed.
 Print Assumptions C11_print_injective.
 
+(* ---------------------------------------------------------------------------------------- *)
+(* clone() shares no mutable node; __hash__ reads the CURRENT tree — on a heap model          *)
+(* ---------------------------------------------------------------------------------------- *)
+(* On pure trees "shares no mutable node with the original" and "a formula edited after it was
+   hashed" are vacuous.  Model/FormHeap.v: formula nodes are heap cells (an operator cell holds
+   the LOCATIONS of its operands, an atom cell its name, a Bool cell its value), constructors
+   and parsers allocate one new cell per node, clone() re-allocates the whole tree, the caller
+   may rename atoms / flip Bools in place.  Proofs in Proofs/FormHeapP.v (axiom-free). *)
+
+(* the clone is an equal formula, every node of it is a cell that did not exist before (so no
+   node is shared with the original or with anything else), the original is untouched *)
+Theorem C11_clone_fresh : forall fuel h l f, fabs fuel h l = Some f ->
+  exists h' l', clone_fh fuel h l = Some (h', l') /\
+    fabs fuel h' l' = Some f /\ fabs (S (height f)) h' l' = Some f /\
+    (forall x, freach h' l' x -> ~ fallocated h x) /\
+    (forall x, freach h' l' x -> ~ freach h' l x) /\
+    fabs fuel h' l = Some f /\ fframe h h'.
+Proof. exact clone_fh_spec. Qed.
+Print Assumptions C11_clone_fresh.
+
+(* whatever is edited in place in the original (or anywhere in the old heap) leaves the clone's
+   tree alone, and whatever is edited in the clone leaves the original's tree alone *)
+Theorem C11_clone_independent : forall fuel h l f h' l',
+  fabs fuel h l = Some f -> clone_fh fuel h l = Some (h', l') ->
+  (forall ws, (forall w, In w ws -> fallocated h (wloc w)) -> fabs fuel (apply_fwrites h' ws) l' = Some f) /\
+  (forall ws, (forall w, In w ws -> freach h' l (wloc w)) -> fabs fuel (apply_fwrites h' ws) l' = Some f) /\
+  (forall ws, (forall w, In w ws -> ~ fallocated h (wloc w)) -> fabs fuel (apply_fwrites h' ws) l = Some f) /\
+  (forall ws, (forall w, In w ws -> freach h' l' (wloc w)) -> fabs fuel (apply_fwrites h' ws) l = Some f).
+Proof. exact clone_independent. Qed.
+Print Assumptions C11_clone_independent.
+
+(* in EVERY heap - whatever was hashed or written before - two objects that are == have the
+   same hash: __eq__ and __hash__ are functions of the current trees *)
+Theorem C11_edited_formula_hash : forall L fuel h0 ws a b f g,
+  let h := apply_fwrites h0 ws in
+  fabs fuel h a = Some f -> fabs fuel h b = Some g ->
+  eq_fh L fuel h a b = true -> good L f = true -> good L g = true ->
+  hash_fh L fuel h a = hash_fh L fuel h b.
+Proof. exact edited_eq_same_hash_after_writes. Qed.
+Print Assumptions C11_edited_formula_hash.
+
+(* non-vacuity: copy.copy (a new root over the SAME operand cells) is not independent, and a
+   hash remembered on the object is not coherent with == after an edit *)
+Theorem C11_shallow_clone_refuted :
+  ~ (forall fuel h l f h' l' ws, fabs fuel h l = Some f -> clone_shallow_fh h l = Some (h', l') ->
+       (forall w, In w ws -> freach h' l' (wloc w)) ->
+       fabs fuel (apply_fwrites h' ws) l = Some f).
+Proof. exact FExamples.shallow_clone_refutes_independence. Qed.
+Print Assumptions C11_shallow_clone_refuted.
+
 (* non-vacuity *)
 From Coq Require Import String.
+
+(* hash an atom p, rename it to q: it is == to a fresh q and the real __hash__ agrees, but a
+   hash cached on the object still answers "p" *)
+Theorem C11_cached_hash_refuted :
+  let '(h1, l) := falloc_form [] (FAtom "p"%string) in
+  let '(o1, s1) := hash_cached_fh PL 1 h1 (l, None) in
+  let h2 := apply_fwrite h1 (WRename l "q"%string) in
+  let '(h3, l3) := falloc_form h2 (FAtom "q"%string) in
+  let '(o2, s2) := hash_cached_fh PL 1 h3 o1 in
+  let '(o4, s4) := hash_cached_fh PL 1 h3 (l3, None) in
+  s1 = Some "p"%string /\ l3 <> l /\ fabs 1 h3 l = Some (FAtom "q"%string) /\
+  eq_fh PL 1 h3 l l3 = true /\ hash_fh PL 1 h3 l = hash_fh PL 1 h3 l3 /\
+  hash_fh PL 1 h3 l3 = Some "q"%string /\ s4 = Some "q"%string /\ s2 = Some "p"%string /\
+  s2 <> s4 /\ s2 <> hash_fh PL 1 h3 l3.
+Proof. exact FExamples.cached_hash_incoherent. Qed.
+Print Assumptions C11_cached_hash_refuted.
+
 Example C11_example :
   good CTL (FA (FU (FAtom "AX") (FOr [FAtom "p_1"; FNot (FAtom "Until")])))%string = true /\
   eq_obj (LTL, FG (FAtom "p"))%string (LTL, FG (FAtom "p"))%string = true /\
